@@ -86,7 +86,7 @@ theorem Extends.addHelper {r m' : Model} (h : Extends r m') (mx : Int) (tail : N
         · exact hhs e he
         · simp only [List.mem_singleton] at he; subst he; exact ⟨h.nT, rfl⟩
       · simp only [PDesy.addHelper, if_neg hne, if_pos htl]
-        rw [← htl, htask]; simp
+        rw [htask]; simp
     · refine ⟨hs, hhs, ?_⟩
       simp only [PDesy.addHelper, if_neg hne, if_neg htl]
       exact htask
@@ -282,5 +282,39 @@ theorem run_fs_order (s : St) (hs : p.initState = true) (hl : p.initLog = true) 
     cases h2
 
 end run
+
+end PDesy.Bwd
+
+namespace PDesy.Bwd
+open PDesy
+
+/-- two models with the same twelve fields are equal -/
+theorem model_ext {a b : Model} (h1 : a.nT = b.nT) (h2 : a.nW = b.nW) (h3 : a.nF = b.nF)
+    (h4 : a.nTeam = b.nTeam) (h5 : a.nWp = b.nWp) (h6 : a.nC = b.nC) (h7 : a.task = b.task)
+    (h8 : a.worker = b.worker) (h9 : a.fac = b.fac) (h10 : a.team = b.team) (h11 : a.wp = b.wp)
+    (h12 : a.comp = b.comp) : a = b := by
+  cases a; cases b; simp_all
+
+/-- dropping the helpers from an extension of `r` gives `r` back, provided the links of `r`
+are in range and `r` has default tasks outside its range -/
+theorem Extends.dropHelpers_eq {r m' : Model} (h : Extends r m')
+    (hr : ∀ t, t < r.nT → ∀ e ∈ (r.task t).inputs, e.1 < r.nT)
+    (hdef : ∀ t, r.nT ≤ t → r.task t = default) : dropHelpers r.nT m' = r := by
+  apply model_ext
+  · rfl
+  · exact h.nW
+  · exact h.nF
+  · exact h.nTeam
+  · exact h.nWp
+  · exact h.nC
+  · funext t
+    by_cases ht : t < r.nT
+    · exact h.dropHelpers_task hr t ht
+    · rw [dropHelpers_task_out _ _ _ ht, hdef t (by omega)]
+  · exact h.worker
+  · exact h.fac
+  · exact h.team
+  · exact h.wp
+  · exact h.comp
 
 end PDesy.Bwd
